@@ -94,6 +94,70 @@ func (e *ValidationError) WriteJSON(w io.Writer) error {
 
 // readJSONFromStdin reads and parses JSON from stdin.
 // Returns nil if stdin is a terminal (no piped input).
+// checkJSONKeys rejects what encoding/json accepts silently and resolves in a
+// way no user intends: a key that occurs twice in one object (the decoder
+// merges the two values field by field) and a key that only matches a field
+// name by case folding ("TASKS", "ta\u017fks"). Syntax errors and unknown
+// fields are left to the decoder, which reports them with their own messages.
+func checkJSONKeys(data []byte, known []string) *ValidationError {
+	decoder := json.NewDecoder(bytes.NewReader(data))
+	type frame struct {
+		object    bool
+		expectKey bool
+		keys      map[string]bool
+	}
+	var stack []frame
+	valueDone := func() {
+		if n := len(stack); n > 0 && stack[n-1].object {
+			stack[n-1].expectKey = true
+		}
+	}
+	for {
+		token, err := decoder.Token()
+		if err != nil {
+			return nil
+		}
+		if delim, ok := token.(json.Delim); ok {
+			switch delim {
+			case '{':
+				stack = append(stack, frame{object: true, expectKey: true, keys: map[string]bool{}})
+			case '[':
+				stack = append(stack, frame{})
+			default:
+				if len(stack) > 0 {
+					stack = stack[:len(stack)-1]
+				}
+				valueDone()
+			}
+			continue
+		}
+		n := len(stack)
+		if n == 0 || !stack[n-1].object || !stack[n-1].expectKey {
+			valueDone()
+			continue
+		}
+		key, _ := token.(string)
+		stack[n-1].expectKey = false
+		if stack[n-1].keys[key] {
+			return &ValidationError{
+				Error:   "parse_error",
+				Message: fmt.Sprintf("invalid JSON: key %q occurs twice in one object", key),
+				Invalid: map[string]string{key: "duplicate key"},
+			}
+		}
+		stack[n-1].keys[key] = true
+		for _, name := range known {
+			if key != name && strings.EqualFold(key, name) {
+				return &ValidationError{
+					Error:   "parse_error",
+					Message: fmt.Sprintf("invalid JSON: unknown field %q (field names are case-sensitive; did you mean: %s?)", key, name),
+					Invalid: map[string]string{key: fmt.Sprintf("unknown field (did you mean: %s?)", name)},
+				}
+			}
+		}
+	}
+}
+
 func readJSONFromStdin() ([]byte, error) {
 	if !stdinIsPiped() {
 		return nil, nil
@@ -116,6 +180,10 @@ func ParseTaskInput() (*TaskInput, *ValidationError) {
 			Error:   "parse_error",
 			Message: "no input: pipe JSON to stdin",
 		}
+	}
+
+	if verr := checkJSONKeys(jsonBytes, knownTaskJSONFields); verr != nil {
+		return nil, verr
 	}
 
 	var input TaskInput
